@@ -146,10 +146,14 @@ def contract_chain(case):
             s2, mt2 = spec_apply(s, cur_mt, op)
         except IndexError:
             return ("skip",)
+        prev_x, prev_s = x, s
         try:
             x = real_apply(x, op)
         except Exception as e:
             return ("fail", f"chain/{'new' if new else 'old'}/{op[0]}/raises", f"{case}: {type(e).__name__}: {e}")
+        if str(prev_x) != prev_s:            # every operation of the algebra returns a new object
+            return ("fail", f"chain/{'new' if new else 'old'}/{op[0]}/receiver-changed",
+                    f"{case}: after {op} the object it was applied to reads {str(prev_x)!r}, it read {prev_s!r}")
         s, cur_mt = s2, mt2
         got = str(x)
         if got != s:
